@@ -65,9 +65,9 @@ chk("C03",E2,"model_checking",
   "exhaustive injection enumeration over protocol stages with a differential (injection-free) oracle","DESIGN.md 4.3")
 
 chk("C06","E5-loopback","exploration",
-  "Full product USERNAME {none, wrong local ufrag, right; after a restart also the previous generation's remote ufrag} x MESSAGE-INTEGRITY {absent, random, remote-pwd, third-key, bit-flipped, correct} x FINGERPRINT x USE-CANDIDATE x role attribute x source {known, stranger} x ICE state (5, plus checking-after-a-remote-ICE-restart) x agent role on a real loopback IceTransport (fresh per case), all 160 single-bit flips of a correct HMAC, and 52 unsolicited responses with random / stale / live transaction ids; oracle = snapshot difference of remote candidates, selected pair, state and nomination watch.",
-  "Real UDP loopback and wall-clock timers; quiescence by an ordering barrier (authenticated no-op answered by the agent's sequential read loop); every violating signature is re-run alone three times before it is reported. Shared-UDP mux, TCP and TURN socket kinds are not reached.",
-  "exhaustive enumeration of the STUN credential x ICE-state lattice on a real IceTransport with a snapshot-difference oracle","DESIGN.md 4.6")
+  "Exhaustive finite product executed on a real IceTransport over loopback through four socket paths (per-connection UDP host socket; process-wide shared UDP mux socket with two live transports; RFC 6544 passive TCP listener with RFC 4571 framing; process-wide shared passive TCP listener with ufrag demultiplexing): USERNAME {none, wrong, other live transport's, previous generation's remote ufrag, right} x MESSAGE-INTEGRITY {absent, random, remote-password, third key, other transport's password, single-bit flips (all 160 in one context), correct} x FINGERPRINT x USE-CANDIDATE x role attribute x source {known, stranger, other transport's peer, stranger-attached connection} x ICE state {new, checking, connected-unnominated, connected, connected-over-tcp, relay peer, checking after a remote ICE restart} x role, and 52 unsolicited responses with random / stale / live transaction ids (UDP kind); oracle = snapshot difference (remote candidates, selected pair, state, nomination watch) on the transport under test and on the bystander transport.",
+  "Real loopback sockets and wall-clock timers; quiescence by ordering barriers (authenticated no-op answered by the sequential read loop, data-receiver echo frame, or observed connection close), never a bare timer; authenticated positive controls per socket kind as vacuity guards; every violating signature is re-run alone three times before it is reported. TURN and agent-initiated TCP connections are not exercised; relay-peer and after-restart states only on the UDP kind.",
+  "exhaustive enumeration of the STUN credential x ICE-state x socket-kind lattice on real IceTransports with a snapshot-difference oracle","DESIGN.md 4.6")
 chk("C09","E3-hist","model_checking",
   "Explicit-state BFS by history replay on real PeerConnections with a real shadow peer: all call sequences over a 17-letter alphabet (create_offer/answer, set_local/set_remote of offer, changed offer, answer, pranswer, rollback, malformed and foreign-fingerprint descriptions, close) x modes {Rtp, Srtp, WebRtc} x starts {fresh, negotiated as offerer / answerer, really connected}, without dedup to depth d1 and with canonical-state dedup (merged pairs cross-checked) to d2; oracle = reference JSEP machine + failed calls leave every public observer unchanged.",
   "Trusted: the canonical-state abstraction (cross-checked on all merged pairs up to d1); single-audio-section SDPs; the mid counter is not observable through the public API.",
